@@ -62,8 +62,8 @@ func (e *Engine) extern(fr *Frame, st *State, callee *ssa.Function, args []Value
 	case "fmt.Errorf", "errors.New":
 		// a fresh non-nil error value
 		e.bumpAllocs(st)
-		h := FreshVar("err", 64)
-		st.assume(Neq(h, BVConst(0, 64)))
+		e.allocSeq++
+		h := BVConstU(0x7e000000+e.allocSeq, 64)
 		return []Value{{T: []*Term{e.typeTagNamed("*errors.errorString"), h}}}
 	case "errors.Is":
 		return []Value{scalar(FreshVar("errors.Is", BoolSort))}
